@@ -115,6 +115,9 @@ PROPS["C06"] = {
     "harnesses": [
         {"pkg": "command", "name": "VerifC06_Stop", "quick": {}, "thorough": {}, "native": False,
          "bounds": {"signal": "full int64", "pid/pgid": "[2,2^22]", "parent_only": "both", "getpgid": "ok/error"}},
+        {"pkg": "app", "name": "VerifC06_Escalation", "quick": {"d": 0}, "thorough": {"d": 1}, "native": False, "reach": ["end", "escalated"],
+         "bounds": {"signal": "{0,2,15}", "timeout_seconds": "{0,2}", "parent_only": "both", "shutdown.command": "none / succeeds / fails / runs into its timeout",
+                    "child": "reacts to the signal or ignores SIGTERM; dies at once or only when nothing else can happen", "virtual time": "yes"}},
     ],
     "stubs": ["syscall.Getpgid (arbitrary pgid or error)", "syscall.Kill (recording)", "(*os.Process).Signal (recording)"],
     "assumptions": ["kernel semantics of signals and process groups, survival of descendants, and signal delivery to the binary are outside the claim",
